@@ -1,10 +1,12 @@
 from checks.common import Build, Job
+from checks import cross
 
 PROP = "C13"
 BUILDS = [Build("df_spec", "harness/c13_defer.c", flavor="spec"),
           Build("df_spec_wb", "harness/c13_defer.c", flavor="spec", whitebox=True),
           Build("df_memb", "harness/c13_defer.c", flavor="memb"),
           Build("df_qsbr", "harness/c13_defer.c", flavor="qsbr")]
+BUILDS = BUILDS + cross.gp_builds()   # cross-property core jobs (checks/cross.py)
 RULE = ("(a) every operation sequence of length len over {defer_rcu(f,p) for 3 functions (one at an odd address) x 4 argument "
         "patterns (aligned, low bit set, the internal marker value, NULL), rcu_defer_barrier, rcu_defer_barrier_thread, unregister+register} with a "
         "queue of 8 slots (wrap-around and self-flush reached) is executed on the real urcu-defer-impl.h, the invocation log "
@@ -50,6 +52,8 @@ def jobs(tier):
         J.append(Job(b, "barrier", "1,0,0,0" if q else "2,0,0,0", p, env, workers=8))
         J.append(Job(b, "late_reader", "1,0,0,0" if q else "2,0,0,0", p, env, workers=8))
         J.append(Job(b, "seq", "0,0,0,0", dict(p, len=2 if q else 3), env, workers=8))
+    # the components this property's guarantee is built on, on the real code (checks/cross.py)
+    J += cross.gp_core(tier)
     return J
 
 
